@@ -25,7 +25,7 @@ from __future__ import annotations
 import ast
 import copy
 
-MAX_ELTS = 6
+MAX_ELTS = 8
 
 
 def _simple(e) -> bool:
@@ -40,6 +40,16 @@ def _simple(e) -> bool:
     if isinstance(e, ast.Call) and isinstance(e.func, ast.Name) and e.func.id == 'getattr' and len(e.args) == 2 \
             and not e.keywords:
         return all(_simple(x) for x in e.args)      # pure read of a field chosen by name
+    if isinstance(e, ast.Lambda):
+        # a small function value in a rule table: parameters are plain names, the body reads only them / constants
+        a = e.args
+        if a.vararg or a.kwarg or a.kwonlyargs or a.defaults or a.posonlyargs:
+            return False
+        params = {x.arg for x in a.args}
+        free = {n.id for n in ast.walk(e.body) if isinstance(n, ast.Name)} - params
+        return not any(isinstance(n, (ast.NamedExpr, ast.Lambda, ast.Yield, ast.Await)) for n in ast.walk(e.body)) \
+            and all(f in ('None', 'True', 'False', 'bool', 'str', 'int', 'float', 'list', 'dict', 'set', 'tuple', 'len')
+                    for f in free)
     return False
 
 
@@ -364,7 +374,29 @@ class Normalizer(ast.NodeTransformer):
         return node
 
     # ------------------------------------------------------------------ N2
+    def _beta(self, node):
+        """(lambda a, b: body)(x, y)  ->  body[a := x, b := y]   (simple arguments only)"""
+        f = node.func
+        if isinstance(f, ast.Lambda) and not node.keywords and len(node.args) == len(f.args.args) \
+                and not (f.args.vararg or f.args.kwarg or f.args.kwonlyargs or f.args.defaults) \
+                and all(_simple(a) or isinstance(a, (ast.Subscript, ast.Call)) for a in node.args):
+            counts = {}
+            for n in ast.walk(f.body):
+                if isinstance(n, ast.Name):
+                    counts[n.id] = counts.get(n.id, 0) + 1
+            # an argument that is not a plain value may be substituted only where it is used exactly once
+            for prm, a in zip(f.args.args, node.args):
+                if not _simple(a) and counts.get(prm.arg, 0) != 1:
+                    return None
+            mapping = {prm.arg: a for prm, a in zip(f.args.args, node.args)}
+            self.count += 1
+            return _Subst(mapping).visit(copy.deepcopy(f.body))
+        return None
+
     def visit_Call(self, node):
+        r_ = self._beta(node)
+        if r_ is not None:
+            return self.visit(r_)
         self.generic_visit(node)
         if isinstance(node.func, ast.Name) and node.func.id == 'getattr' and len(node.args) == 2 \
                 and not node.keywords and isinstance(node.args[1], ast.Constant) \
@@ -791,6 +823,14 @@ def normalize(tree: ast.Module, inline: bool = True) -> ast.Module:
     n = Normalizer()
     tree = n.visit(tree)
     n.count += nfold
+    if inline and n.count:
+        # unrolling a rule table can expose calls of helpers that were only function values before
+        # (`convert(x)` -> `_is_true(x)`): un-extract those too, then tidy up once more
+        ninl2 = inline_helpers(tree)
+        if ninl2:
+            n2 = Normalizer()
+            tree = n2.visit(tree)
+            n.count += ninl2 + n2.count
     n.count += ninl
     n.count += _search_loops(tree)
     n.count += _raise_split_and_unpeel(tree)
